@@ -112,6 +112,11 @@ func H_C15_start() {
 	if len(w.co.events) == 1 {
 		w.co.events[0].Ack()
 	}
+	if choose("socket-drops-during-shutdown", 2) == 1 {
+		// a node goes away while the client shuts down: vBucket 1's stream ends with "socket closed"
+		w.cl.dropOnClose[1] = true
+		cover("socket-drop-during-shutdown")
+	}
 	if choose("how", 2) == 0 {
 		w.d.cancelCh <- syscall.SIGTERM
 		cover("sigterm")
@@ -125,6 +130,7 @@ func H_C15_start() {
 	doc, ok := w.st.docs[0]
 	assert(ok && doc.Checkpoint.SeqNo == 5, "automatic checkpointing leaves the acknowledged position durable")
 	assert(len(w.cl.closes) == 2 && w.cl.dcpClosed == 1 && w.cl.closed == 1, "streams and connections closed")
+	assert(len(w.cl.opens) == 2, "no vBucket stream is re-opened once the shutdown has begun")
 	for vb := 0; vb < vNV; vb++ {
 		assert(!w.cl.isOpen[vb], "no vBucket stream is left open")
 	}
